@@ -4,9 +4,11 @@
    _store_ent_info, _handle_epr_ok_k_response, wait_all/wait_any/wait_single;
    qlink_compat.get_creator_node_id).  Proof-free: proofs are in Proofs/EprProofs.v.
 
-   One application; several subroutines alive at once (each blocked in a wait
-   instruction), responses arriving at any time, the back end retrying pending
-   responses at its yield points.
+   Several applications on one controller (registered and stopped by Init / Stop), each
+   with its own arrays and unit module; several subroutines alive at once (each blocked in
+   a wait instruction), responses arriving at any time, the back end retrying pending
+   responses at its yield points.  The request queues and the pending list are shared by
+   all applications (keyed by remote node, purpose and role only), as in the code.
 
    Representation: the code keeps a dict (remote, purpose) -> list per role and
    works on list[0] / append / pop(0).  The model keeps ONE list `reqs` of all
@@ -25,6 +27,7 @@ Record req := mkReq {
   q_key : key;
   q_creator : bool;        (* true: _epr_create_requests, false: _epr_recv_requests *)
   q_sid : Z;               (* issuing subroutine *)
+  q_app : Z;               (* its application (the code finds it through the subroutine id) *)
   q_res : Z;               (* ent_results_array_address *)
   q_qarr : option Z;       (* q_array_address (None for measure-directly) *)
   q_tot : nat;
@@ -63,10 +66,10 @@ Record state := mkSt {
   node : Z;
   reqs : list req;
   pend : list resp;                            (* _pending_epr_responses *)
-  arrs : list (Z * list (option Z));
-  um : list (option Z);
+  arrs : list ((Z * Z) * list (option Z));     (* (application, address) -> array *)
+  ums : list (Z * list (option Z));            (* application -> unit module; registered = has an entry *)
   used : list (Z * Z);                         (* (0, p): reuse of the pool functions of Qmem *)
-  subs : list (Z * list wspec);                (* alive subroutines and the waits still ahead of them *)
+  subs : list (Z * (Z * list wspec));          (* alive subroutines: application, waits still ahead *)
   next_sid : Z;
   next_req : nat;                              (* ghost *)
   next_resp : nat;                             (* ghost *)
@@ -74,8 +77,12 @@ Record state := mkSt {
   issued : list (nat * nat)                    (* ghost: (request id, number of pairs) of every request ever issued *)
 }.
 
-Definition init_state (nd : Z) (n : nat) : state :=
-  mkSt nd [] [] [] (repeat None n) [] [] 0 0 0 [] [].
+Definition init_state (nd : Z) : state :=
+  mkSt nd [] [] [] [] [] [] 0 0 0 [] [].
+
+(* the arrays of one application, keyed by address *)
+Definition app_arrs (ar : list ((Z * Z) * list (option Z))) (app : Z) : list (Z * list (option Z)) :=
+  flat_map (fun x => if fst (fst x) =? app then [(snd (fst x), snd x)] else []) ar.
 
 Inductive err :=
 | EUnknownSub        (* ValueError: Unknown subroutine with ID n *)
@@ -86,6 +93,8 @@ Inductive err :=
 | EBusy              (* RuntimeError: already allocated (negative-index alias) *)
 | EResSlice          (* AssertionError / IndexError: result array missing or too short *)
 | ENotAllocated      (* RuntimeError: qfree of an unallocated qubit *)
+| ENoApp             (* KeyError / RuntimeError: the application is not registered (any more) *)
+| EAlready           (* RuntimeError: application id already registered *)
 | EBadEvent          (* harness never produces: malformed event *)
 | EFuel.             (* model only *)
 
@@ -102,7 +111,7 @@ Fixpoint dec_first (f : req -> bool) (l : list req) : list req :=
   | q :: t =>
       if f q
       then match q_left q with
-           | S (S m) => mkReq (q_id q) (q_key q) (q_creator q) (q_sid q) (q_res q) (q_qarr q) (q_tot q) (S m) :: t
+           | S (S m) => mkReq (q_id q) (q_key q) (q_creator q) (q_sid q) (q_app q) (q_res q) (q_qarr q) (q_tot q) (S m) :: t
            | _ => t
            end
       else q :: dec_first f t
@@ -113,8 +122,8 @@ Definition alive (s : state) (sid : Z) : bool :=
 
 Inductive hres := Handled (s' : state) | NotNow | HFault (e : err).
 
-Definition with_handled (s : state) (rq : list req) (ar : list (Z * list (option Z))) (u : list (option Z))
-           (us : list (Z * Z)) (e : nat * nat * nat) : state :=
+Definition with_handled (s : state) (rq : list req) (ar : list ((Z * Z) * list (option Z)))
+           (u : list (Z * list (option Z))) (us : list (Z * Z)) (e : nat * nat * nat) : state :=
   mkSt (node s) rq (pend s) ar u us (subs s) (next_sid s) (next_req s) (next_resp s) (e :: log s) (issued s).
 
 (* one iteration of the loop body of _handle_pending_epr_responses for response r *)
@@ -124,13 +133,14 @@ Definition try_handle (s : state) (r : resp) : hres :=
   | Some q =>
       let k := (q_tot q - q_left q)%nat in                  (* pair_index *)
       if negb (alive s (q_sid q)) then HFault EUnknownSub else
-      let finish (u : list (option Z)) (us : list (Z * Z)) : hres :=
-          match aget Z.eqb (q_res q) (arrs s) with
+      let app := q_app q in
+      let finish (u : list (Z * list (option Z))) (us : list (Z * Z)) : hres :=
+          match aget pair_eqb (app, q_res q) (arrs s) with
           | None => HFault EResSlice
           | Some l =>
               if Nat.leb ((k + 1) * OK_FIELDS) (List.length l)
               then Handled (with_handled s (dec_first (matches (node s) r) (reqs s))
-                                         (aset Z.eqb (q_res q) (write_from l (k * OK_FIELDS) (map Some (info_of r))) (arrs s))
+                                         (aset pair_eqb (app, q_res q) (write_from l (k * OK_FIELDS) (map Some (info_of r))) (arrs s))
                                          u us (r_id r, q_id q, k))
               else HFault EResSlice
           end in
@@ -138,28 +148,33 @@ Definition try_handle (s : state) (r : resp) : hres :=
         match q_qarr q with
         | None => HFault ETypeMismatch
         | Some qa =>
-            match aget Z.eqb qa (arrs s) with
+            match aget pair_eqb (app, qa) (arrs s) with
             | None => HFault EVirtNone
             | Some l =>
                 match nth_error l k with
                 | None => HFault EIndex
                 | Some None => HFault EVirtNone
                 | Some (Some v) =>
-                    if has_virtual (um s) v then NotNow       (* defer: virtual qubit still allocated *)
-                    else
-                      match slot (List.length (um s)) v with
-                      | High => HFault EOutHigh
-                      | Low => HFault EIndex
-                      | Slot i =>
-                          match nth_error (um s) i with
-                          | Some None => finish (set_nth (um s) i (Some (r_q r))) (add2 (0, r_q r) (used s))
-                          | _ => HFault EBusy
+                    match aget Z.eqb app (ums s) with
+                    | None => HFault ENoApp                   (* the application was stopped meanwhile *)
+                    | Some um =>
+                        if has_virtual um v then NotNow       (* defer: virtual qubit still allocated *)
+                        else
+                          match slot (List.length um) v with
+                          | High => HFault EOutHigh
+                          | Low => HFault EIndex
+                          | Slot i =>
+                              match nth_error um i with
+                              | Some None => finish (aset Z.eqb app (set_nth um i (Some (r_q r))) (ums s))
+                                                    (add2 (0, r_q r) (used s))
+                              | _ => HFault EBusy
+                              end
                           end
-                      end
+                    end
                 end
             end
         end
-      else finish (um s) (used s)
+      else finish (ums s) (used s)
   end.
 
 (* first handleable response wins *)
@@ -181,7 +196,7 @@ Fixpoint scan (s : state) (l : list resp) : scan_res :=
   end.
 
 Definition set_pend (s : state) (p : list resp) : state :=
-  mkSt (node s) (reqs s) p (arrs s) (um s) (used s) (subs s) (next_sid s) (next_req s) (next_resp s) (log s) (issued s).
+  mkSt (node s) (reqs s) p (arrs s) (ums s) (used s) (subs s) (next_sid s) (next_req s) (next_resp s) (log s) (issued s).
 
 Inductive pres := Quiet (s : state) | PFault (e : err) | OutOfFuel.
 
@@ -241,51 +256,61 @@ Fixpoint advance (ar : list (Z * list (option Z))) (ws : list wspec) : option (l
       end
   end.
 
-Definition set_subs (s : state) (x : list (Z * list wspec)) : state :=
-  mkSt (node s) (reqs s) (pend s) (arrs s) (um s) (used s) x (next_sid s) (next_req s) (next_resp s) (log s) (issued s).
+Definition set_subs (s : state) (x : list (Z * (Z * list wspec))) : state :=
+  mkSt (node s) (reqs s) (pend s) (arrs s) (ums s) (used s) x (next_sid s) (next_req s) (next_resp s) (log s) (issued s).
 
 Definition poll (s : state) (sid : Z) : state * option err :=
   match aget Z.eqb sid (subs s) with
   | None => (s, Some EBadEvent)
-  | Some ws =>
-      match advance (arrs s) ws with
+  | Some (app, ws) =>
+      match advance (app_arrs (arrs s) app) ws with
       | None => (set_subs s (adel Z.eqb sid (subs s)), Some EIndex)
       | Some [] => (set_subs s (adel Z.eqb sid (subs s)), None)
-      | Some ws' => (set_subs s (aset Z.eqb sid ws' (subs s)), None)
+      | Some ws' => (set_subs s (aset Z.eqb sid (app, ws') (subs s)), None)
       end
   end.
 
 (* ------------------------------------------------------------------ events *)
 Inductive event :=
-| Create (k : key) (tpk : bool) (vs : list Z) (n : nat) (qarr args res : Z) (ws : list wspec)
-| Recv (k : key) (vs : option (list Z)) (n : nat) (qarr res : Z) (ws : list wspec)
-| CreateRefused (k : key) (tpk : bool) (vs : list Z) (n : nat) (qarr args res : Z)
+| Init (app : Z) (n : nat)
+| Stop (app : Z)
+| Create (app : Z) (k : key) (tpk : bool) (vs : list Z) (n : nat) (qarr args res : Z) (ws : list wspec)
+| Recv (app : Z) (k : key) (vs : option (list Z)) (n : nat) (qarr res : Z) (ws : list wspec)
+| CreateRefused (app : Z) (k : key) (tpk : bool) (vs : list Z) (n : nat) (qarr args res : Z)
     (* the same subroutine, but network_stack.put raises (the stack refuses the request):
        create_epr faults at that line and the subroutine ends *)
 | Resp (r : resp)
 | Retry
 | Poll (sid : Z)
-| Free (v : Z)
-| Alloc (v : Z).
+| Free (app v : Z)
+| Alloc (app v : Z).
 
-Definition enqueue (s : state) (k : key) (creator : bool) (qa : option Z) (res : Z) (n : nat)
-           (ar : list (Z * list (option Z))) (ws : list wspec) : state :=
+Definition registered (s : state) (app : Z) : bool :=
+  match aget Z.eqb app (ums s) with Some _ => true | None => false end.
+
+Definition enqueue (s : state) (app : Z) (k : key) (creator : bool) (qa : option Z) (res : Z) (n : nat)
+           (ar : list ((Z * Z) * list (option Z))) (ws : list wspec) : state :=
   let sid := next_sid s in
   mkSt (node s)
-       (reqs s ++ [mkReq (next_req s) k creator sid res qa n n])
-       (pend s) ar (um s) (used s)
-       (aset Z.eqb sid ws (subs s)) (sid + 1) (S (next_req s)) (next_resp s) (log s)
+       (reqs s ++ [mkReq (next_req s) k creator sid app res qa n n])
+       (pend s) ar (ums s) (used s)
+       (aset Z.eqb sid (app, ws) (subs s)) (sid + 1) (S (next_req s)) (next_resp s) (log s)
        ((next_req s, n) :: issued s).
 
 Definition create_args (tpk : bool) (n : nat) : list (option Z) :=
   [Some (if tpk then 0 else 1); Some (Z.of_nat n)] ++ repeat None 18.
 
-Definition bump_sid (s : state) : state :=
-  mkSt (node s) (reqs s) (pend s) (arrs s) (um s) (used s) (subs s) (next_sid s + 1) (next_req s) (next_resp s) (log s) (issued s).
+(* changes that touch neither the requests, the pending list, the log nor the waiting
+   subroutines: arrays declared, unit modules / in-use set changed, subroutine counter advanced *)
+Definition frame (s : state) (ar : list ((Z * Z) * list (option Z))) (u : list (Z * list (option Z)))
+           (us : list (Z * Z)) (sid : Z) : state :=
+  mkSt (node s) (reqs s) (pend s) ar u us (subs s) sid (next_req s) (next_resp s) (log s) (issued s).
 
-(* a subroutine that only declared arrays and then ended *)
-Definition declare (s : state) (ar : list (Z * list (option Z))) : state :=
-  mkSt (node s) (reqs s) (pend s) ar (um s) (used s) (subs s) (next_sid s + 1) (next_req s) (next_resp s) (log s) (issued s).
+(* the arrays a create subroutine declares before create_epr *)
+Definition create_arrays (s : state) (app : Z) (tpk : bool) (vs : list Z) (n : nat) (qarr args res : Z) :=
+  let ar := if tpk then aset pair_eqb (app, qarr) (map Some vs) (arrs s) else arrs s in
+  let ar := aset pair_eqb (app, args) (create_args tpk n) ar in
+  aset pair_eqb (app, res) (repeat None (n * OK_FIELDS)) ar.
 
 Definition of_pres (s0 : state) (p : pres) : state * option err :=
   match p with
@@ -296,63 +321,80 @@ Definition of_pres (s0 : state) (p : pres) : state * option err :=
 
 Definition step (s : state) (e : event) : state * option err :=
   match e with
-  | Create k tpk vs n qarr args res ws =>
+  | Init app n =>
+      (* InitNewAppMessage *)
+      if registered s app then (s, Some EAlready)
+      else (frame s (arrs s) (aset Z.eqb app (repeat None n) (ums s)) (used s) (next_sid s), None)
+  | Stop app =>
+      (* StopAppMessage: qubits released, arrays dropped; the request queues and the pending
+         list are NOT touched *)
+      match aget Z.eqb app (ums s) with
+      | None => (s, Some ENoApp)
+      | Some um =>
+          (frame s (filter (fun x => negb (fst (fst x) =? app)) (arrs s)) (adel Z.eqb app (ums s))
+                 (filter (fun x => negb (existsb (fun o => match o with Some p => pair_eqb x (0, p) | None => false end) um))
+                         (used s))
+                 (next_sid s), None)
+      end
+  | Create app k tpk vs n qarr args res ws =>
       (* subroutine: declare the arrays, create_epr, then run into its first wait *)
+      if negb (registered s app) then (s, Some ENoApp) else
       if (Nat.eqb n 0) || (tpk && negb (Nat.eqb (List.length vs) n)) then (s, Some EBadEvent) else
-      let ar := if tpk then aset Z.eqb qarr (map Some vs) (arrs s) else arrs s in
-      let ar := aset Z.eqb args (create_args tpk n) ar in
-      let ar := aset Z.eqb res (repeat None (n * OK_FIELDS)) ar in
-      let s1 := enqueue s k true (if tpk then Some qarr else None) res n ar ws in
+      let s1 := enqueue s app k true (if tpk then Some qarr else None) res n
+                        (create_arrays s app tpk vs n qarr args res) ws in
       poll s1 (next_sid s)
-  | CreateRefused k tpk vs n qarr args res =>
+  | CreateRefused app k tpk vs n qarr args res =>
       (* the arrays were declared by the instructions before create_epr; the refused request
          leaves NO outstanding request behind: the queues are as before the instruction *)
+      if negb (registered s app) then (s, Some ENoApp) else
       if (Nat.eqb n 0) || (tpk && negb (Nat.eqb (List.length vs) n)) then (s, Some EBadEvent) else
-      let ar := if tpk then aset Z.eqb qarr (map Some vs) (arrs s) else arrs s in
-      let ar := aset Z.eqb args (create_args tpk n) ar in
-      let ar := aset Z.eqb res (repeat None (n * OK_FIELDS)) ar in
-      (declare s ar, None)
-  | Recv k vs n qarr res ws =>
+      (frame s (create_arrays s app tpk vs n qarr args res) (ums s) (used s) (next_sid s + 1), None)
+  | Recv app k vs n qarr res ws =>
+      if negb (registered s app) then (s, Some ENoApp) else
       if Nat.eqb n 0 then (s, Some EBadEvent) else
-      let ar := match vs with Some l => aset Z.eqb qarr (map Some l) (arrs s) | None => arrs s end in
-      let ar := aset Z.eqb res (repeat None (n * OK_FIELDS)) ar in
-      let s1 := enqueue s k false (match vs with Some _ => Some qarr | None => None end) res n ar ws in
+      let ar := match vs with Some l => aset pair_eqb (app, qarr) (map Some l) (arrs s) | None => arrs s end in
+      let ar := aset pair_eqb (app, res) (repeat None (n * OK_FIELDS)) ar in
+      let s1 := enqueue s app k false (match vs with Some _ => Some qarr | None => None end) res n ar ws in
       poll s1 (next_sid s)
   | Resp r =>
       (* _handle_epr_response: append, then handle what can be handled *)
       let r' := mkResp (next_resp s) (r_k r) (r_remote r) (r_purpose r) (r_flag r) (r_q r) (r_cid r) (r_seq r)
                        (r_good r) (r_x r) (r_bell r) in
-      let s1 := mkSt (node s) (reqs s) (pend s ++ [r']) (arrs s) (um s) (used s) (subs s) (next_sid s)
+      let s1 := mkSt (node s) (reqs s) (pend s ++ [r']) (arrs s) (ums s) (used s) (subs s) (next_sid s)
                      (next_req s) (S (next_resp s)) (log s) (issued s) in
       of_pres s1 (handle_all s1)
   | Retry => of_pres s (handle_all s)
   | Poll sid => poll s sid
-  | Free v =>
+  | Free app v =>
       (* subroutine `set Q0 v; qfree Q0` *)
-      let s := bump_sid s in
-      match slot (List.length (um s)) v with
-      | High | Low => (s, Some EIndex)
-      | Slot i =>
-          match nth_error (um s) i with
-          | Some (Some p) =>
-              (mkSt (node s) (reqs s) (pend s) (arrs s) (set_nth (um s) i None) (rem2 (0, p) (used s)) (subs s)
-                    (next_sid s) (next_req s) (next_resp s) (log s) (issued s), None)
-          | _ => (s, Some ENotAllocated)
+      match aget Z.eqb app (ums s) with
+      | None => (s, Some ENoApp)
+      | Some um =>
+          match slot (List.length um) v with
+          | High | Low => (frame s (arrs s) (ums s) (used s) (next_sid s + 1), Some EIndex)
+          | Slot i =>
+              match nth_error um i with
+              | Some (Some p) =>
+                  (frame s (arrs s) (aset Z.eqb app (set_nth um i None) (ums s)) (rem2 (0, p) (used s)) (next_sid s + 1), None)
+              | _ => (frame s (arrs s) (ums s) (used s) (next_sid s + 1), Some ENotAllocated)
+              end
           end
       end
-  | Alloc v =>
+  | Alloc app v =>
       (* subroutine `set Q0 v; qalloc Q0` *)
-      let s := bump_sid s in
-      match slot (List.length (um s)) v with
-      | High => (s, Some EOutHigh)
-      | Low => (s, Some EIndex)
-      | Slot i =>
-          match nth_error (um s) i, first_unused 0 (used s) with
-          | Some None, Some p =>
-              (mkSt (node s) (reqs s) (pend s) (arrs s) (set_nth (um s) i (Some p)) ((0, p) :: used s) (subs s)
-                    (next_sid s) (next_req s) (next_resp s) (log s) (issued s), None)
-          | Some None, None => (s, Some EFuel)
-          | _, _ => (s, Some EBusy)
+      match aget Z.eqb app (ums s) with
+      | None => (s, Some ENoApp)
+      | Some um =>
+          match slot (List.length um) v with
+          | High => (frame s (arrs s) (ums s) (used s) (next_sid s + 1), Some EOutHigh)
+          | Low => (frame s (arrs s) (ums s) (used s) (next_sid s + 1), Some EIndex)
+          | Slot i =>
+              match nth_error um i, first_unused 0 (used s) with
+              | Some None, Some p =>
+                  (frame s (arrs s) (aset Z.eqb app (set_nth um i (Some p)) (ums s)) ((0, p) :: used s) (next_sid s + 1), None)
+              | Some None, None => (s, Some EFuel)
+              | _, _ => (frame s (arrs s) (ums s) (used s) (next_sid s + 1), Some EBusy)
+              end
           end
       end
   end.
@@ -387,18 +429,18 @@ Definition purpose_of (pm : pmap) (remote sock : Z) : Z :=
 
 (* events as the instructions state them: (remote node, local socket) *)
 Inductive ievent :=
-| ICreate (remote sock : Z) (tpk : bool) (vs : list Z) (n : nat) (qarr args res : Z) (ws : list wspec)
-| IRecv (remote sock : Z) (vs : option (list Z)) (n : nat) (qarr res : Z) (ws : list wspec)
-| ICreateRefused (remote sock : Z) (tpk : bool) (vs : list Z) (n : nat) (qarr args res : Z)
+| ICreate (app remote sock : Z) (tpk : bool) (vs : list Z) (n : nat) (qarr args res : Z) (ws : list wspec)
+| IRecv (app remote sock : Z) (vs : option (list Z)) (n : nat) (qarr res : Z) (ws : list wspec)
+| ICreateRefused (app remote sock : Z) (tpk : bool) (vs : list Z) (n : nat) (qarr args res : Z)
 | IOther (e : event).
 
 Definition lower (pm : pmap) (ie : ievent) : event :=
   match ie with
-  | ICreate remote sock tpk vs n qarr args res ws =>
-      Create (remote, purpose_of pm remote sock) tpk vs n qarr args res ws
-  | IRecv remote sock vs n qarr res ws =>
-      Recv (remote, purpose_of pm remote sock) vs n qarr res ws
-  | ICreateRefused remote sock tpk vs n qarr args res =>
-      CreateRefused (remote, purpose_of pm remote sock) tpk vs n qarr args res
+  | ICreate app remote sock tpk vs n qarr args res ws =>
+      Create app (remote, purpose_of pm remote sock) tpk vs n qarr args res ws
+  | IRecv app remote sock vs n qarr res ws =>
+      Recv app (remote, purpose_of pm remote sock) vs n qarr res ws
+  | ICreateRefused app remote sock tpk vs n qarr args res =>
+      CreateRefused app (remote, purpose_of pm remote sock) tpk vs n qarr args res
   | IOther e => e
   end.
